@@ -81,6 +81,11 @@ where
         self.inner.smss()
     }
 
+    #[cfg(librqbit_utp_verif)]
+    fn verif_raw(&self) -> Option<(f64, f64, f64)> {
+        self.inner.verif_raw()
+    }
+
     fn set_mss(&mut self, mss: usize) {
         log_if_changed!(
             CONGESTION_TRACING_LOG_LEVEL,
